@@ -167,6 +167,10 @@ ExitViol(e) ==
        ELSE IF \E u \in URLs : req[1][u] < expected[u] THEN 11      \* C01: an in-scope reachable URL was not requested
        ELSE IF \E u \in URLs : req[1][u] > expected[u] THEN 12      \* C01: requested more than once
        ELSE IF \E u \in URLs : st[u] \notin {"none", "done", "skipped"} THEN 13   \* C01: a row left non-final
+       \* C01, read strictly: a URL is requested once even when it is the target of a redirect and ALSO linked (or the
+       \* target of two redirects).  `expected` counts one request per item whose redirect chain passes through the URL,
+       \* which is what following redirects inside the redirecting item amounts to
+       ELSE IF \E u \in URLs : expected[u] > 1 /\ req[1][u] > 1 THEN 15
        ELSE 0
   ELSE IF S.benign = 1 /\ crashed
   THEN IF \E u \in doneAtCrash : req[2][u] > 0 THEN 50               \* C03: done before the kill, requested again
